@@ -23,15 +23,19 @@ EXTENDS Integers, Sequences, TLC, FiniteSets
 
 CONSTANTS Inputs,      \* set of [toks, incode, open, src] records
           DevP2
-DevP2Intended == [BlockIgnoresEOF |-> FALSE, ObjectNoProgress |-> FALSE, IllegalSteppedOver |-> FALSE, OneTokenAhead |-> FALSE]
+DevP2Intended == [SlotsBlind |-> FALSE, BlockIgnoresEOF |-> FALSE, ObjectNoProgress |-> FALSE, IllegalSteppedOver |-> FALSE, OneTokenAhead |-> FALSE]
 DevP2AsCoded  == [BlockIgnoresEOF |-> TRUE, ObjectNoProgress |-> TRUE, IllegalSteppedOver |-> FALSE, OneTokenAhead |-> FALSE]   \* the two pinned loops
 \* OneTokenAhead: after the ")" of @component the pinned parser looked one token ahead: white space that a comment
 \* splits into two tokens (WS WS) hid the slots, and a single white-space token was swallowed when no slot followed
 \* (repaired: the parser looks past every white-space token and consumes them only when a slot follows)
-DevP2OneAhead == [BlockIgnoresEOF |-> FALSE, ObjectNoProgress |-> FALSE, IllegalSteppedOver |-> FALSE, OneTokenAhead |-> TRUE]
+DevP2OneAhead == [SlotsBlind |-> FALSE, BlockIgnoresEOF |-> FALSE, ObjectNoProgress |-> FALSE, IllegalSteppedOver |-> FALSE, OneTokenAhead |-> TRUE]
 \* IllegalSteppedOver: the name positions of @each / @insert / @slot / @reserve / @use take the token as it is; as
 \* pinned, an illegal token there was never looked at (repaired: the parser remembers the first illegal token the
 \* lexer hands it and reports it when nothing else has been reported)
+\* SlotsBlind: after a slot body the pinned parser skipped two tokens without looking at them ("skip block statement, skip
+\* @end") and never looked for the @end of the component: inputs like @component("c")@slot@else@if(true) were accepted
+\* (repaired: both @end tokens are required)
+DevP2Blind    == [SlotsBlind |-> TRUE, BlockIgnoresEOF |-> FALSE, ObjectNoProgress |-> FALSE, IllegalSteppedOver |-> FALSE, OneTokenAhead |-> FALSE]
 DevP2Illegal  == [BlockIgnoresEOF |-> FALSE, ObjectNoProgress |-> FALSE, IllegalSteppedOver |-> TRUE, OneTokenAhead |-> FALSE]
 
 (* --fair algorithm TwParser
@@ -216,11 +220,18 @@ begin
  M5:     i := i + 2;
        end if;
  M6:   call parseBlock();
- M7:   i := i + 2;                        \* skip block statement, skip "@end"
+ M7:   if DevP2.SlotsBlind then
+         i := i + 2;                      \* as pinned: skip block statement, skip "@end" without looking
+       elsif Tok(i + 1) = "END" then
+         i := i + 2;
+       else
+         err("expected @end of the slot"); return;
+       end if;
  M8:   while Tok(i) \in {"HTML", "WS"} do i := i + 1; end while;
      end while;
  M9: depth := depth - 1;
-     return;
+     if ~DevP2.SlotsBlind /\ errs = <<>> /\ Tok(i) # "END" then err("expected @end of the component"); end if;
+ M10: return;
 end procedure;
 
 \* parseEmbeddedCode ("{{", ";" or the "(" of @for already current): assignment or expression statement
@@ -916,10 +927,19 @@ M6 == /\ pc = "M6"
                       kind >>
 
 M7 == /\ pc = "M7"
-      /\ i' = i + 2
-      /\ pc' = "M8"
-      /\ UNCHANGED << inp, toks, errs, nilp, loose, eaten, depth, stack, 
-                      closer, kind >>
+      /\ IF DevP2.SlotsBlind
+            THEN /\ i' = i + 2
+                 /\ pc' = "M8"
+                 /\ UNCHANGED << errs, stack >>
+            ELSE /\ IF Tok(i + 1) = "END"
+                       THEN /\ i' = i + 2
+                            /\ pc' = "M8"
+                            /\ UNCHANGED << errs, stack >>
+                       ELSE /\ errs' = Append(errs, "expected @end of the slot")
+                            /\ pc' = Head(stack).pc
+                            /\ stack' = Tail(stack)
+                            /\ i' = i
+      /\ UNCHANGED << inp, toks, nilp, loose, eaten, depth, closer, kind >>
 
 M8 == /\ pc = "M8"
       /\ IF Tok(i) \in {"HTML", "WS"}
@@ -938,12 +958,21 @@ M5 == /\ pc = "M5"
 
 M9 == /\ pc = "M9"
       /\ depth' = depth - 1
-      /\ pc' = Head(stack).pc
-      /\ stack' = Tail(stack)
-      /\ UNCHANGED << inp, toks, i, errs, nilp, loose, eaten, closer, kind >>
+      /\ IF ~DevP2.SlotsBlind /\ errs = <<>> /\ Tok(i) # "END"
+            THEN /\ errs' = Append(errs, "expected @end of the component")
+            ELSE /\ TRUE
+                 /\ errs' = errs
+      /\ pc' = "M10"
+      /\ UNCHANGED << inp, toks, i, nilp, loose, eaten, stack, closer, kind >>
+
+M10 == /\ pc = "M10"
+       /\ pc' = Head(stack).pc
+       /\ stack' = Tail(stack)
+       /\ UNCHANGED << inp, toks, i, errs, nilp, loose, eaten, depth, closer, 
+                       kind >>
 
 parseComponent == M0 \/ M1 \/ M1a \/ M2 \/ M3 \/ M3a \/ M3b \/ M4 \/ M6
-                     \/ M7 \/ M8 \/ M5 \/ M9
+                     \/ M7 \/ M8 \/ M5 \/ M9 \/ M10
 
 X0 == /\ pc = "X0"
       /\ i' = i + 1
